@@ -533,7 +533,10 @@ func (e *Enc) loadAt(st *State, p Val, t types.Type) Val {
 			base = *base.Elem
 		}
 		var cur T
-		if space == "G" {
+		if k2, r2, ok := e.fieldArray(space, root, path, len(idxs), p.L[0], l); ok {
+			// an array-typed field of an object lives in the slice backing store (so it can be sliced)
+			cur = Select(e.heapGet(st, k2, ArrS(IntS, ArrS(is, base))), r2)
+		} else if space == "G" {
 			cur = e.heapGet(st, key, wrapArr(base, is, countIdx(path)))
 		} else {
 			h := e.heapGet(st, key, ArrS(IntS, wrapArr(base, is, countIdx(path))))
@@ -568,6 +571,12 @@ func (e *Enc) storeAt(st *State, p Val, v Val) {
 		base := l.S
 		for base.K == SArray {
 			base = *base.Elem
+		}
+		if k2, r2, ok := e.fieldArray(space, root, path, len(idxs), p.L[0], l); ok {
+			h2 := e.heapGet(st, k2, ArrS(IntS, ArrS(is, base)))
+			st.H[k2] = e.define(Store(h2, r2, v.L[i]), "H")
+			e.markWrite(k2)
+			continue
 		}
 		var h T
 		if space == "G" {
@@ -689,4 +698,37 @@ func (e *Enc) subIdx(a, b T) T {
 		return T{a.S, app("bvsub", a.E, b.E)}
 	}
 	return T{a.S, app("-", a.E, b.E)}
+}
+
+// fieldArray redirects a leaf that is a whole array-typed field (scalar elements) of an object
+// in the H space to the row of the slice backing store (E space) in which such arrays are
+// modelled, so that `obj.buf[i:]` yields an ordinary slice. The row's reference is derived
+// injectively from the object's reference and the field: -(ref*1024 + fieldNo + 1).
+func (e *Enc) fieldArray(space string, root types.Type, path string, nIdx int, ref T, l Leaf) (string, T, bool) {
+	if space != "H" || nIdx != 0 || !strings.HasSuffix(path, "[]") || strings.Count(path, "[]") != 1 || l.Typ == nil {
+		return "", T{}, false
+	}
+	if _, ok := l.Typ.Underlying().(*types.Basic); !ok {
+		return "", T{}, false
+	}
+	return "E|" + typeKey(l.Typ) + "|[]", e.fieldArrayRef(root, path, ref), true
+}
+
+func (e *Enc) fieldArrayRef(root types.Type, path string, ref T) T {
+	id := e.prog.fieldArrID(typeKey(root) + path)
+	mk := fmt.Sprintf("%s#%d", ref.E, id)
+	if n, ok := e.farrMemo[mk]; ok {
+		return T{IntS, n}
+	}
+	// the name is memoized so that the same row is recognised across a loop (farrBase: see discoverWrites)
+	save := e.discovery
+	e.discovery = 0
+	t := e.define(T{IntS, fmt.Sprintf("(- (+ (* %s 1024) %d))", ref.E, id+1)}, "farr")
+	e.discovery = save
+	if e.farrMemo == nil {
+		e.farrMemo, e.farrBase = map[string]string{}, map[string]string{}
+	}
+	e.farrMemo[mk] = t.E
+	e.farrBase[t.E] = ref.E
+	return t
 }
